@@ -36,6 +36,32 @@ Theorem C18_leave_monitor : forall t o t', Inv t -> step t o = Some t' -> pol_le
 Proof. exact pol_leave_holds. Qed.
 Print Assumptions C18_leave_monitor.
 
+(* (2, converse) the 5-failures rule must fire: a failed track request with fails+1 >= 5 against a node that is an
+       entry of a bucket with at least 4 entries removes that entry.  The id can be present afterwards only as a
+       NEW entry re-added from the found nodes of the same request (fresh_from: record among the found nodes, not
+       validated, fast list); if no found node carries the id, the id is gone. *)
+Theorem C18_entry_leaves_if : forall t n found pick t' b,
+  Inv t -> node_wf n -> Forall node_wf found ->
+  step t (Track n false found pick) = Some t' -> nbucket t (nid n) = Some b ->
+  5 <= fails_read (fails t) (nid n) (nip n) + 1 -> 4 <= nlen (ents b) ->
+  (exists e, In e (ents b) /\ eid e = nid n) ->
+  forall e', In e' (all_ents t') -> eid e' = nid n -> fresh_from found e'.
+Proof. exact entry_leaves_if. Qed.
+Print Assumptions C18_entry_leaves_if.
+
+Theorem C18_entry_leaves_if_gone : forall t n found pick t' b,
+  Inv t -> node_wf n -> Forall node_wf found ->
+  step t (Track n false found pick) = Some t' -> nbucket t (nid n) = Some b ->
+  5 <= fails_read (fails t) (nid n) (nip n) + 1 -> 4 <= nlen (ents b) ->
+  (exists e, In e (ents b) /\ eid e = nid n) -> Forall (fun x => nid x <> nid n) found ->
+  ~ In (nid n) (entry_ids t').
+Proof. exact entry_leaves_if_gone. Qed.
+Print Assumptions C18_entry_leaves_if_gone.
+
+Theorem C18_kept_monitor : forall t o t', Inv t -> op_wf o -> step t o = Some t' -> pol_kept_b t o t' = true.
+Proof. exact pol_kept_holds. Qed.
+Print Assumptions C18_kept_monitor.
+
 (* the failure counter in cause_b is the number of CONSECUTIVE failed track requests of (id, ip) since the last
    successful one (consec), a function of the operation history alone (hist_fails): no other operation touches it,
    and it survives removal and re-adding of the node, as the node database does *)
